@@ -20,6 +20,8 @@ VARIANTS = {
     "asan": ["-O1", "-g", "-fsanitize=address,undefined", "-fno-sanitize=shift-base",
              "-fno-sanitize-recover=all", "-fno-omit-frame-pointer"],
     "plain": ["-O2", "-g"],
+    # the "plus memory" part of the project's policy: uninitialised-value reads
+    "msan": ["-O1", "-g", "-fsanitize=memory", "-fno-sanitize-recover=all", "-fno-omit-frame-pointer"],
 }
 CC = "clang"
 
